@@ -213,6 +213,7 @@ type initWatch struct {
 	closedSeen bool
 	satisfied bool
 	regSince bool // a new initializer was registered (committed) on the table since
+	viaTxn   *wtxn // obtained through Initialized(wtxn) inside this write transaction
 }
 
 type hookObs struct {
@@ -1433,6 +1434,15 @@ func (in *interp) abort(w *wtxn) {
 			ws.survivedAbort = true
 		}
 	}
+	// channels handed out by Initialized(wtxn) of the aborted transaction may
+	// belong to registrations that never happened: not judged any further
+	kept := in.iwatches[:0:0]
+	for _, iw := range in.iwatches {
+		if iw.viaTxn != w {
+			kept = append(kept, iw)
+		}
+	}
+	in.iwatches = kept
 	fresh := in.db.ReadTxn()
 	for t := range in.tbls {
 		if d := lightDigest(in.tbls[t], fresh); d != modelDigest(in.cur.tables[t]) {
